@@ -1,0 +1,193 @@
+//! Verification instrumentation (compiled only with `--cfg crux_verif`).
+//!
+//! A public entry to the private `run`, plus a dump of what the `Filter` and the `Formatter`
+//! computed, expressed with plain data so that an external harness can compare it with a model.
+//! Nothing here changes the behaviour of `run`/`format`.
+
+use std::{cell::RefCell, collections::HashMap, panic};
+
+use anyhow::Result;
+use rustdoc_types::{Crate, ItemEnum};
+use serde::Serialize;
+
+pub use super::serde_generate::format::{ContainerFormat, Format, Named, VariantFormat};
+pub use super::Registry;
+use super::{filter::Filter, formatter, formatter::Formatter, item::*, node::ItemNode};
+
+#[derive(Debug, Clone, PartialEq, Eq, Serialize)]
+pub enum Kind {
+    StructUnit,
+    StructPlain(Vec<u32>),
+    StructTuple(Vec<u32>),
+    Enum(Vec<u32>),
+    VariantPlain,
+    VariantTuple(Vec<u32>),
+    VariantStruct(Vec<u32>),
+    Field,
+    Other,
+}
+
+/// Item-level facts, each computed by the CLI's own predicate.
+#[derive(Debug, Clone, Serialize)]
+pub struct ItemFacts {
+    pub crate_: String,
+    pub id: u32,
+    /// `ItemNode::name()` (after `serde(rename)`)
+    pub name: Option<String>,
+    pub raw_name: Option<String>,
+    pub kind: Kind,
+    /// `ItemNode::should_skip()`
+    pub skip: bool,
+    /// for struct fields: the value `make_format` produces (`Err` = it panicked)
+    pub format: Option<std::result::Result<Format, String>>,
+    pub is_range: bool,
+    /// `make_range`
+    pub range: Option<ContainerFormat>,
+}
+
+/// Edge-level facts for an edge `(from, to)` (indices into `Capture::items`).
+#[derive(Debug, Clone, Serialize)]
+pub struct EdgeFacts {
+    pub from: usize,
+    pub to: usize,
+    pub has_field: bool,
+    pub has_variant: bool,
+    /// `field_name(..)` when `has_field`, `variant_name(..)` when `has_variant`
+    pub wire_name: Option<String>,
+}
+
+#[derive(Default)]
+pub struct Capture {
+    pub items: Vec<ItemFacts>,
+    /// `Filter::edge`, in relation order
+    pub edges: Vec<EdgeFacts>,
+    /// base relations the `edge` rules read (indices into `items`)
+    pub root: Vec<usize>,
+    pub field: Vec<(usize, usize)>,
+    pub variant: Vec<(usize, usize)>,
+    pub local_type_of: Vec<(usize, usize)>,
+    /// `Formatter::container` in relation order, i.e. before the final collect into a map
+    pub containers: Vec<(String, ContainerFormat)>,
+    nodes: Vec<ItemNode>,
+    index: HashMap<(String, u32), usize>,
+    raw_edges: Vec<(ItemNode, ItemNode)>,
+}
+
+thread_local! {
+    static CAPTURE: RefCell<Option<Capture>> = const { RefCell::new(None) };
+}
+
+fn quiet<T>(f: impl FnOnce() -> T) -> std::result::Result<T, String> {
+    panic::catch_unwind(panic::AssertUnwindSafe(f)).map_err(|e| {
+        e.downcast_ref::<&str>()
+            .map(|s| s.to_string())
+            .or_else(|| e.downcast_ref::<String>().cloned())
+            .unwrap_or_else(|| "panic".to_string())
+    })
+}
+
+fn kind_of(n: &ItemNode) -> Kind {
+    let ids = |v: Vec<rustdoc_types::Id>| v.into_iter().map(|i| i.0).collect::<Vec<_>>();
+    let item = &n.item;
+    if is_struct_unit(item) {
+        Kind::StructUnit
+    } else if is_struct_plain(item) {
+        Kind::StructPlain(ids(field_ids(item)))
+    } else if is_struct_tuple(item) {
+        Kind::StructTuple(ids(field_ids(item)))
+    } else if is_enum(item) {
+        Kind::Enum(ids(variant_ids(item)))
+    } else if is_plain_variant(item) {
+        Kind::VariantPlain
+    } else if is_tuple_variant(item) {
+        Kind::VariantTuple(ids(field_ids(item)))
+    } else if is_struct_variant(item) {
+        Kind::VariantStruct(ids(field_ids(item)))
+    } else if matches!(item.inner, ItemEnum::StructField(_)) {
+        Kind::Field
+    } else {
+        Kind::Other
+    }
+}
+
+impl Capture {
+    fn intern(&mut self, n: &ItemNode) -> usize {
+        let key = (n.id.crate_.clone(), n.id.id);
+        if let Some(i) = self.index.get(&key) {
+            return *i;
+        }
+        let is_field = matches!(n.item.inner, ItemEnum::StructField(_));
+        let facts = ItemFacts {
+            crate_: n.id.crate_.clone(),
+            id: n.id.id,
+            name: n.name().map(str::to_string),
+            raw_name: n.item.name.clone(),
+            kind: kind_of(n),
+            skip: n.verif_should_skip(),
+            format: is_field.then(|| quiet(|| formatter::verif_field_format(n)).map(|f| f.expect("a field"))),
+            is_range: n.is_range(),
+            range: if n.is_range() { quiet(|| formatter::verif_make_range(n)).ok().flatten() } else { None },
+        };
+        let i = self.items.len();
+        self.items.push(facts);
+        self.nodes.push(n.clone());
+        self.index.insert(key, i);
+        i
+    }
+
+    fn pairs(&mut self, rel: &[(ItemNode, ItemNode)]) -> Vec<(usize, usize)> {
+        rel.iter().map(|(a, b)| (self.intern(a), self.intern(b))).collect()
+    }
+
+    /// The real `format` on a chosen multiset of the captured edges, in the chosen order.
+    pub fn format_edges(&self, picks: &[usize]) -> std::result::Result<(Registry, Vec<(String, ContainerFormat)>), String> {
+        let edges = picks.iter().map(|i| self.raw_edges[*i].clone()).collect::<Vec<_>>();
+        quiet(|| {
+            let registry = super::format(edges);
+            let containers = CAPTURE.with(|c| c.borrow_mut().take()).map(|c| c.containers).unwrap_or_default();
+            (registry, containers)
+        })
+    }
+}
+
+pub(super) fn capture_filter(filter: &Filter) {
+    let mut cap = Capture::default();
+    cap.raw_edges = filter.edge.clone();
+    for (a, b) in &filter.edge {
+        let (from, to) = (cap.intern(a), cap.intern(b));
+        let has_field = a.has_field(b);
+        let has_variant = a.has_variant(b);
+        let wire_name = if has_field {
+            b.name().map(|n| formatter::verif_field_name(n, b, a))
+        } else if has_variant {
+            b.item.name.as_deref().map(|n| formatter::verif_variant_name(n, b, a))
+        } else {
+            None
+        };
+        cap.edges.push(EdgeFacts { from, to, has_field, has_variant, wire_name });
+    }
+    cap.root = filter.root.iter().map(|(r,)| cap.intern(r)).collect();
+    cap.field = cap.pairs(&filter.field);
+    cap.variant = cap.pairs(&filter.variant);
+    cap.local_type_of = cap.pairs(&filter.local_type_of);
+    CAPTURE.with(|c| *c.borrow_mut() = Some(cap));
+}
+
+pub(super) fn capture_formatter(formatter: &Formatter) {
+    CAPTURE.with(|c| {
+        let mut c = c.borrow_mut();
+        let cap = c.get_or_insert_with(Capture::default);
+        cap.containers = formatter.container.clone();
+    });
+}
+
+/// Public entry to the private `run`: same loader contract, returns what `run` returned (or the
+/// message of its panic) together with the dump of the filter and formatter state it went through.
+pub fn verif_run<F>(crate_name: &str, load: F) -> (std::result::Result<Result<Registry>, String>, Option<Capture>)
+where
+    F: Fn(&str) -> Result<Crate>,
+{
+    CAPTURE.with(|c| *c.borrow_mut() = None);
+    let result = quiet(|| super::run(crate_name, load));
+    (result, CAPTURE.with(|c| c.borrow_mut().take()))
+}
